@@ -280,6 +280,7 @@ static int
 move_thread_to_final(const char *src, const char *dst)
 {
 	char buffer[1024];
+	int ret = 0;
 
 	FILE *infile = fopen(src, "r");
 
@@ -291,16 +292,36 @@ move_thread_to_final(const char *src, const char *dst)
 	FILE *outfile = fopen(dst, "w");
 
 	if (outfile == NULL) {
-		err("fopen(%s) failed:", src);
+		err("fopen(%s) failed:", dst);
+		fclose(infile);
 		return -1;
 	}
 
 	size_t bytes;
-	while ((bytes = fread(buffer, 1, sizeof(buffer), infile)) > 0)
-		fwrite(buffer, 1, bytes, outfile);
+	while ((bytes = fread(buffer, 1, sizeof(buffer), infile)) > 0) {
+		if (fwrite(buffer, 1, bytes, outfile) != bytes) {
+			err("fwrite(%s) failed:", dst);
+			ret = -1;
+			break;
+		}
+	}
 
-	fclose(outfile);
+	if (ferror(infile)) {
+		err("fread(%s) failed:", src);
+		ret = -1;
+	}
+
+	/* The last bytes are written on close */
+	if (fclose(outfile) != 0) {
+		err("fclose(%s) failed:", dst);
+		ret = -1;
+	}
+
 	fclose(infile);
+
+	/* Keep the source if the copy is not complete */
+	if (ret != 0)
+		return -1;
 
 	if (remove(src) != 0) {
 		err("remove(%s) failed:", src);
@@ -310,15 +331,16 @@ move_thread_to_final(const char *src, const char *dst)
 	return 0;
 }
 
-static void
-move_thdir_to_final(const char *thdir, const char *thdir_final)
+/* Moves the files "stream.*" from thdir to thdir_final. */
+static int
+move_stream_files(const char *thdir, const char *thdir_final)
 {
 	DIR *dir;
 	int ret = 0;
 
 	if ((dir = opendir(thdir)) == NULL) {
 		err("opendir %s failed:", thdir);
-		return;
+		return -1;
 	}
 
 	struct dirent *dirent;
@@ -334,7 +356,7 @@ move_thdir_to_final(const char *thdir, const char *thdir_final)
 				>= PATH_MAX) {
 			err("snprintf: path too large: %s/%s", thdir,
 					dirent->d_name);
-			ret = 1;
+			ret = -1;
 			continue;
 		}
 
@@ -344,19 +366,27 @@ move_thdir_to_final(const char *thdir, const char *thdir_final)
 				>= PATH_MAX) {
 			err("snprintf: path too large: %s/%s", thdir_final,
 					dirent->d_name);
-			ret = 1;
+			ret = -1;
 			continue;
 		}
 
 		if (move_thread_to_final(thread, thread_final) != 0)
-			ret = 1;
+			ret = -1;
 	}
 
 	closedir(dir);
 
-	/* Warn the user, but we cannot do much at this point */
-	if (ret)
-		err("errors occurred when moving the thread dir to %s", thdir_final);
+	return ret;
+}
+
+static void
+move_thdir_to_final(const char *thdir, const char *thdir_final)
+{
+	if (move_stream_files(thdir, thdir_final) != 0) {
+		/* The files that could not be moved are kept in thdir */
+		die("errors occurred when moving the thread dir %s to %s",
+				thdir, thdir_final);
+	}
 }
 
 static void
